@@ -208,3 +208,45 @@ radix_harness!(display_upper_hex, "{:X}", 16, 4, 0, 2);
 radix_harness!(display_binary, "{:b}", 2, 1, 0, 8);
 radix_harness!(display_octal, "{:o}", 8, 3, 0, 3);
 radix_harness!(display_alt_hex, "{:#x}", 16, 4, 2, 2);
+
+// ---- 16-bit layouts (BOUNDED: u16 patterns, all 17 layouts symbolic): the per-width code of `impl_radix_helper!` that the 8-bit
+// instance never runs - u16 delegates to the u8 helper when fewer than 8 bits are in use (`attempt_half`)
+macro_rules! radix_harness16 {
+    ($name:ident, $fmt:expr, $radix:expr, $bits:expr, $maxfd:expr) => {
+        #[cfg(kani)]
+        #[kani::proof]
+        #[kani::unwind(30)]
+        #[kani::stub(core::str::from_utf8, fake_from_utf8)]
+        pub fn $name() {
+            let abs: u16 = kani::any();
+            let f: u32 = kani::any();
+            kani::assume(f <= 16);
+            let mut s = Sink::new();
+            assert!(write!(s, $fmt, FmtRadix2(false, abs, f)).is_ok());
+            let (val, fd, ok) = read_radix(&s, 0, $radix);
+            assert!(ok && fd <= $maxfd && (val << f) == (abs as u64) << ($bits * fd as u32));
+        }
+    };
+}
+radix_harness16!(display_lower_hex_u16, "{:x}", 16, 4, 4);
+radix_harness16!(display_octal_u16, "{:o}", 8, 3, 6);
+// default `{}` of a 16-bit value: well formed, and the printed decimal parses back to the same bit pattern (within half an ulp)
+#[cfg(kani)]
+#[kani::proof]
+#[kani::unwind(30)]
+#[kani::stub(core::str::from_utf8, fake_from_utf8)]
+pub fn display_default_u16() {
+    let abs: u16 = kani::any();
+    let f: u32 = kani::any();
+    kani::assume(f <= 16);
+    let mut s = Sink::new();
+    assert!(write!(s, "{}", FmtDec(false, abs, f)).is_ok());
+    let (neg, val, fd, ok) = read_dec(&s);
+    assert!(ok && !neg && fd <= 5);
+    // |val / 10^fd - abs / 2^f| <= 2^-(f+1)   <=>   |val * 2^(f+1) - abs * 2 * 10^fd| <= 10^fd
+    let p = pow10(fd);
+    let lhs = (val as u128) << (f + 1);
+    let rhs = (abs as u128) * 2 * (p as u128);
+    let diff = if lhs >= rhs { lhs - rhs } else { rhs - lhs };
+    assert!(diff < p as u128 || (diff == p as u128 && abs % 2 == 0));
+}
